@@ -38,7 +38,13 @@ func (e *Evidence) Write() error {
 	if err != nil {
 		return err
 	}
-	return os.WriteFile(filepath.Join(dir, e.PropertyID+".json"), append(b, '\n'), 0o644)
+	name := e.PropertyID + ".json"
+	if build.Repo != "/repo" {
+		// a run against another tree (VERIF_REPO: a seeded change in a scratch worktree) must not replace the
+		// evidence of the tree under verification
+		name = e.PropertyID + ".other-tree.json"
+	}
+	return os.WriteFile(filepath.Join(dir, name), append(b, '\n'), 0o644)
 }
 
 // Replay is the common envelope of a replay file.
